@@ -5,7 +5,12 @@ the property text.
 A *case* is
   {"loop": "asyncio"|"uvloop", "total": N,
    "calls": [{"kind": K, "ab": bool, "pre": bool}, ...],
-   "steps": [["start", i] | ["cancel", i] | ["release", i] | ["fincancel", i] | ["settotal", n]]}
+   "steps": [["start", i] | ["cancel", i] | ["release", i] | ["fincancel", i] | ["settotal", n]
+             | ["age", 0]]}
+
+`age` lets MAX_IDLE_TIME pass for every worker that is idle at that moment (their `idle_since` is
+moved back; the clock itself is not touched): the next dispatch has to reuse the most recently idle
+worker and stop the other expired ones (model event `prune`), and still run its function.
 
 Every call i is one task doing `to_thread.run_sync(fn_i, abandon_on_cancel=ab, limiter=lim)`
 inside its own CancelScope; `pre` = that scope is cancelled before the call.  fn_i logs its entry
@@ -21,6 +26,7 @@ the function's end and the `_report_result` callback (a loop subclass sees the w
 
 kinds: ret | raise | run (from_thread.run) | run_sync (from_thread.run_sync) | check
 (from_thread.check_cancelled, result returned) | checkraise (check_cancelled, propagates) | ctx
+| retexc (returns an exception instance as its value) | retstop (returns a StopIteration instance)
 """
 
 from __future__ import annotations
@@ -40,7 +46,7 @@ from anyio.lowlevel import checkpoint
 
 from .common import Ctx, Disagreement, Result, Violation, load_corpus, run_model
 
-KINDS = ["ret", "raise", "run", "run_sync", "check", "checkraise", "ctx"]
+KINDS = ["ret", "raise", "run", "run_sync", "check", "checkraise", "ctx", "retexc", "retstop"]
 CV: contextvars.ContextVar = contextvars.ContextVar("c14_cv", default=("cv", "unset"))
 CANCELLED = asyncio.CancelledError  # asyncio backend only
 SETTLE_TIMEOUT = 6.0
@@ -136,6 +142,20 @@ class Run:
         self.lim: CapacityLimiter
         self.end_state: dict[str, Any] = {}
         self.lowered = False
+        self.seen_workers: dict[int, Any] = {}  # thread ident -> WorkerThread, every one ever created
+        self.pruned: set[int] = set()
+        self._wids: dict[int, int] = {}
+        self._wobjs: list[Any] = []
+
+    def wid(self, th: Any = None) -> int:
+        """a serial number per thread object (OS thread idents are reused once a thread has exited)"""
+        th = th or threading.current_thread()
+        with self.lock:
+            k = self._wids.get(id(th))
+            if k is None:
+                k = self._wids[id(th)] = len(self._wids) + 1
+                self._wobjs.append(th)  # keeps id(th) unique
+            return k
 
     # ---------------------------------------------------------------- logging
     def ev(self, kind: str, *rest: Any) -> int:
@@ -147,7 +167,7 @@ class Run:
     # ---------------------------------------------------------------- thread side
     def fn(self, i: int) -> Any:
         spec = self.calls[i]
-        tid = threading.get_ident()
+        tid = self.wid()
         with self.lock:
             self.thread_call[tid] = i
             self.executing.add(i)
@@ -177,6 +197,10 @@ class Run:
             return ("val", i)
         if kind == "raise":
             raise TagError(i)
+        if kind == "retexc":
+            return TagError(i)  # a value that happens to be an exception instance
+        if kind == "retstop":
+            return StopIteration(i)
         if kind == "ctx":
             return CV.get()
         if kind in ("check", "checkraise"):
@@ -192,7 +216,7 @@ class Run:
             return ("chk", i, False)
         if kind == "run_sync":
             def in_loop(x: int) -> tuple:
-                return ("sync", x, threading.get_ident(), CV.get())
+                return ("sync", x, self.wid(), CV.get())
 
             r = from_thread.run_sync(in_loop, i)
             self.ev("cb_sync", i, r == ("sync", i, self.loop_tid, ("cv", i)), r)
@@ -201,7 +225,7 @@ class Run:
             must_cancel = self.cancel_issued[i]
 
             async def coro(x: int) -> tuple:
-                tid = threading.get_ident()
+                tid = self.wid()
                 try:
                     await anyio.sleep(0)
                     if must_cancel:
@@ -225,10 +249,10 @@ class Run:
 
     # ---------------------------------------------------------------- loop side
     def hook(self, post, callback, args, context):  # runs in the worker thread
-        i = self.thread_call.get(threading.get_ident())
+        i = self.thread_call.get(self.wid())
         if i is None:
             return post(callback, *args, context=context)
-        tid = threading.get_ident()
+        tid = self.wid()
         fin = self.fin_cancel[i] and not self.cancel_issued[i]
         if fin:
             self.cancel_issued[i] = True
@@ -290,6 +314,9 @@ class Run:
         waiting = self.lim.statistics().tasks_waiting
         if len(inflight) != len(at_gate) + waiting:
             return False
+        for w in self.seen_workers.values():
+            if w.stopping and w.is_alive():
+                return False
         for i in range(self.n):
             if self.entered[i] and self.released[i] and not self.left[i]:
                 return False
@@ -353,14 +380,32 @@ class Run:
                     prev = str(rec[2])
         return prev
 
+    def note_workers(self) -> list[int]:
+        """register the WorkerThreads of this loop; returns the ones stopped since the last look"""
+        from anyio._backends._asyncio import _threadpool_workers
+
+        try:
+            for w in _threadpool_workers.get():
+                self.seen_workers.setdefault(self.wid(w), w)
+        except LookupError:
+            pass
+        new = [t for t, w in self.seen_workers.items() if w.stopping and t not in self.pruned]
+        self.pruned.update(new)
+        return new
+
     def obs(self) -> str:
+        self.note_workers()
         per = " ".join(f"{i}={self.got_str(i)}/{self.prev_str(i)}" for i in range(self.n) if self.started[i])
         with self.lock:
             nexec = len(self.executing)
         return (f"borrowed={self.lim.borrowed_tokens} waiting={self.lim.statistics().tasks_waiting} "
-                f"workers={len(worker_threads())} exec={nexec} | {per}")
+                f"workers={len(self.seen_workers)} exec={nexec} | {per}")
 
     def snap(self) -> None:
+        for t in self.note_workers():
+            # a worker was stopped in this step: the model's environment event `prune`
+            self.ev("pruned", t)
+            self.lines.append(("prune", "env"))
         o = self.obs()
         self.ev("obs", o, self.lim.total_tokens)
         self.lines.append(("settle", "ok"))
@@ -400,7 +445,7 @@ class Run:
 
     async def main(self) -> None:
         loop = asyncio.get_running_loop()
-        self.loop_tid = threading.get_ident()
+        self.loop_tid = self.wid()
         type(loop).c14_hook = staticmethod(self.hook)  # type: ignore[attr-defined]
         self.lim = CapacityLimiter(self.case["total"])
         self.scopes = [CancelScope() for _ in range(self.n)]
@@ -443,6 +488,16 @@ class Run:
                             await self.settle()
                             self.lines.append((f"settotal {a}", "env"))
                             self.snap()
+                        elif op == "age":
+                            from anyio._backends._asyncio import WorkerThread, _threadpool_idle_workers
+
+                            try:
+                                idle = list(_threadpool_idle_workers.get())
+                            except LookupError:
+                                idle = []
+                            for w in idle:
+                                w.idle_since -= WorkerThread.MAX_IDLE_TIME + 1
+                            self.ev("age", tuple(self.wid(w) for w in idle))
                         else:
                             raise ValueError(step)
                         await self.drain_deferred()
@@ -526,6 +581,9 @@ def oracle(r: Run) -> str | None:
     back_seq: dict[int, int] = {}
     cancel_seq: dict[int, int] = {}
     idle_stack: list[int] = []
+    aged: set[int] = set()  # idle workers whose MAX_IDLE_TIME has passed
+    must_prune: set[int] = set()
+    pruned: set[int] = set()
     total_now = case["total"]
     lowered = False
     for rec in r.log:
@@ -559,6 +617,19 @@ def oracle(r: Run) -> str | None:
                 idle_stack.pop()
             elif idle_stack:
                 return f"a new worker thread was started for call {i} although {len(idle_stack)} were idle"
+            # this dispatch had to stop every other idle worker whose idle time has expired
+            must_prune |= {t for t in idle_stack if t in aged}
+            idle_stack[:] = [t for t in idle_stack if t not in aged]
+            aged.clear()
+        elif kind == "age":
+            aged = set(rec[2])
+        elif kind == "pruned":
+            t = rec[2]
+            if t not in must_prune and t not in aged:
+                return "a worker thread that had not been idle for MAX_IDLE_TIME was stopped"
+            pruned.add(t)
+            if t in idle_stack:
+                idle_stack.remove(t)
         elif kind == "reported":
             idle_stack.append(rec[3])
         elif kind == "leave":
@@ -579,6 +650,9 @@ def oracle(r: Run) -> str | None:
             return (f"coroutine started by from_thread.run from call {rec[2]}'s thread was not interrupted "
                     f"although the host scope is cancelled")
         elif kind == "obs":
+            if not must_prune <= pruned:
+                return (f"{len(must_prune - pruned)} worker thread(s) idle for longer than MAX_IDLE_TIME "
+                        f"were not stopped by the next dispatch")
             f = dict(kv.split("=") for kv in rec[2].split(" | ")[0].split())
             if not lowered and int(f["borrowed"]) > rec[3]:
                 return f"borrowed_tokens={f['borrowed']} exceeds total_tokens={rec[3]}"
@@ -702,7 +776,38 @@ def gen_random(rng: random.Random, max_n: int) -> dict:
         steps += rest
     if rng.random() < 0.15:
         steps.insert(rng.randint(0, len(steps)), ["settotal", rng.randint(3, 4)])
+    if n > 1 and rng.random() < 0.3:
+        # let the idle time of the workers expire somewhere behind the first release
+        first = min(k for k, st_ in enumerate(steps) if st_[0] in ("release", "fincancel"))
+        steps.insert(rng.randint(first + 1, len(steps)), ["age", 0])
     return {"loop": rng.choice(["asyncio", "uvloop"]), "total": rng.randint(1, 3), "calls": calls,
+            "steps": steps}
+
+
+def gen_prune(rng: random.Random) -> dict:
+    """k calls run concurrently and finish (k idle workers), MAX_IDLE_TIME passes, possibly one more
+    worker becomes idle afterwards (fresh), then the remaining calls are started"""
+    n = rng.randint(2, 5)
+    calls = gen_calls(rng, n)
+    for c in calls:
+        c["pre"] = False
+    k = rng.randint(1, n - 1)
+    first = list(range(k))
+    rng.shuffle(first)
+    steps: list[list] = [["start", i] for i in range(k)]
+    fresh = k >= 2 and rng.random() < 0.4
+    held = first.pop() if fresh else None
+    steps += [["release", i] for i in first] + [["age", 0]]
+    if held is not None:
+        steps.append(["release", held])
+    rest = list(range(k, n))
+    steps += [["start", i] for i in rest]
+    rng.shuffle(rest)
+    for i in rest:
+        if rng.random() < 0.25:
+            steps.append(["cancel", i])
+        steps.append(["release", i])
+    return {"loop": rng.choice(["asyncio", "uvloop"]), "total": rng.randint(max(1, k), 5), "calls": calls,
             "steps": steps}
 
 
@@ -848,10 +953,12 @@ def run(ctx: Ctx) -> Result:
         cases += list(enum_orders(ctx.rng, 4, ["asyncio"]))
         cases += list(enum_orders(ctx.rng, 4, ["uvloop"]))
         cases += [gen_random(ctx.rng, 4) for _ in range(ctx.n(300, 300))]
+        cases += [gen_prune(ctx.rng) for _ in range(ctx.n(60, 60))]
     else:
         cases += list(enum_orders(ctx.rng, 4, ["asyncio"]))
         cases += list(enum_orders(ctx.rng, 4, ["uvloop"]))
         cases += [gen_random(ctx.rng, 6) for _ in range(ctx.n(1500, 1500))]
+        cases += [gen_prune(ctx.rng) for _ in range(ctx.n(300, 300))]
         cases += list(enum_orders(ctx.rng, 6, loops))
         res.stats["enumerated_orders_up_to"] = 6
     for k in range(0, len(cases), 100):
